@@ -381,3 +381,50 @@ pub proof fn lemma_dep_bin(f: BF, g: BF, n: int)
     requires dep_below(f, n), dep_below(g, n),
     ensures dep_below(bf_and(f, g), n), dep_below(bf_or(f, g), n), dep_below(bf_imp(f, g), n), dep_below(bf_iff(f, g), n), dep_below(bf_xor(f, g), n)
 { }
+// ---- hybrid back-end (C01 / C02): the pre-grounded ADF - every condition restricted by the grounded interpretation g -
+// has the same least fixpoint and the same fixpoints as the original ADF
+pub open spec fn pre_grounded(fs: Seq<BF>, g: Seq<Option<bool>>) -> Seq<BF> { Seq::new(fs.len(), |i: int| cofv(fs[i], g)) }
+pub proof fn lemma_below_refl(v: Seq<Option<bool>>) ensures below(v, v) { }
+// a statement decided by g has a constant condition in the pre-grounded ADF: every fixpoint there carries g
+pub proof fn lemma_pre_grounded_above(fs: Seq<BF>, g: Seq<Option<bool>>, w: Seq<Option<bool>>)
+    requires is_fix(fs, g), is_fix(pre_grounded(fs, g), w),
+    ensures below(g, w)
+{
+    let fs2 = pre_grounded(fs, g);
+    lemma_const_ne();
+    assert forall|i: int| 0 <= i < g.len() && (#[trigger] g[i]).is_some() implies w[i] == g[i] by {
+        assert(g[i] == gamma_at(fs, g, i));
+        let b = g[i].unwrap();
+        assert(cofv(fs[i], g) == bf_const(b));
+        assert(fs2[i] == bf_const(b));
+        lemma_cofv_const(b, w);
+        assert(w[i] == gamma_at(fs2, w, i));
+    }
+}
+// above g the two operators coincide
+pub proof fn lemma_pre_grounded_gamma(fs: Seq<BF>, g: Seq<Option<bool>>, w: Seq<Option<bool>>, i: int)
+    requires below(g, w), 0 <= i < fs.len(),
+    ensures gamma_at(pre_grounded(fs, g), w, i) == gamma_at(fs, w, i)
+{ lemma_cofv_compose(fs[i], g, w); }
+pub proof fn lemma_hybrid_fix(fs: Seq<BF>, g: Seq<Option<bool>>, w: Seq<Option<bool>>)
+    requires is_lfp(fs, g),
+    ensures is_fix(pre_grounded(fs, g), w) == is_fix(fs, w)
+{
+    let fs2 = pre_grounded(fs, g);
+    if is_fix(fs2, w) {
+        lemma_pre_grounded_above(fs, g, w);
+        assert forall|i: int| 0 <= i < fs.len() implies #[trigger] w[i] == gamma_at(fs, w, i) by { lemma_pre_grounded_gamma(fs, g, w, i); assert(w[i] == gamma_at(fs2, w, i)); }
+    }
+    if is_fix(fs, w) {
+        assert(below(g, w));
+        assert forall|i: int| 0 <= i < fs2.len() implies #[trigger] w[i] == gamma_at(fs2, w, i) by { lemma_pre_grounded_gamma(fs, g, w, i); assert(w[i] == gamma_at(fs, w, i)); }
+    }
+}
+pub proof fn lemma_hybrid_lfp(fs: Seq<BF>, g: Seq<Option<bool>>)
+    requires is_lfp(fs, g),
+    ensures is_lfp(pre_grounded(fs, g), g)
+{
+    let fs2 = pre_grounded(fs, g);
+    lemma_hybrid_fix(fs, g, g);
+    assert forall|w: Seq<Option<bool>>| #[trigger] is_fix(fs2, w) implies below(g, w) by { lemma_hybrid_fix(fs, g, w); }
+}
